@@ -431,8 +431,11 @@ def build_arakawa(spec):
     return data_vars, coords, attrs
 
 
-def arakawa_coordinate_names():
-    return {k: tuple(v) for k, v in GENERIC_C_COORDS.items()}
+def arakawa_coordinate_names(spec=None):
+    """The coordinate_names mapping for the generic Arakawa C class; a spec may ask for its keys
+    in another order (spec["coord_names_order"]) - it is a mapping, the order means nothing."""
+    order = (spec or {}).get("coord_names_order") or list(GENERIC_C_COORDS)
+    return {k: tuple(GENERIC_C_COORDS[k]) for k in order}
 
 
 # ---- UGRID
@@ -741,7 +744,7 @@ def construct_convention(spec, dataset):
     import emsarray.conventions as conventions
     conv_name = spec["conv"]
     if conv_name == "arakawa":
-        return conventions.ArakawaC(dataset, coordinate_names=arakawa_coordinate_names())
+        return conventions.ArakawaC(dataset, coordinate_names=arakawa_coordinate_names(spec))
     cls = getattr(conventions, EXPECTED_CLASS[conv_name])
     if conv_name in ("cf1d", "cf2d"):
         names = spec["geom"]["names"]
@@ -761,7 +764,7 @@ def bind_convention(spec, dataset):
     import emsarray.conventions as conventions
     conv_name = spec["conv"]
     if conv_name == "arakawa":
-        conv = conventions.ArakawaC(dataset, coordinate_names=arakawa_coordinate_names())
+        conv = conventions.ArakawaC(dataset, coordinate_names=arakawa_coordinate_names(spec))
         conv.bind()
     elif spec.get("bind") == "explicit":
         cls = getattr(conventions, EXPECTED_CLASS[conv_name])
